@@ -6,6 +6,8 @@
 package auditlog
 
 import (
+	"errors"
+	"fmt"
 	"io"
 	"io/fs"
 	"log"
@@ -83,20 +85,27 @@ func (cl concurrentWriter) Write(al plugintypes.AuditLog) error {
 	cl.mux.Lock()
 	defer cl.mux.Unlock()
 
-	cl.log.Printf("%s %s - - [%s]", al.Transaction().ClientIP(), al.Transaction().HostIP(), al.Transaction().Timestamp())
+	// a failed write of the index line (disk full, file size limit) is reported like the others
+	var errs []error
+	printf := func(format string, v ...any) {
+		if err := cl.log.Output(2, fmt.Sprintf(format, v...)); err != nil {
+			errs = append(errs, err)
+		}
+	}
+	printf("%s %s - - [%s]", al.Transaction().ClientIP(), al.Transaction().HostIP(), al.Transaction().Timestamp())
 	if al.Transaction().HasRequest() {
-		cl.log.Printf(
+		printf(
 			` "%s %s %s"`,
 			al.Transaction().Request().Method(),
 			al.Transaction().Request().URI(),
 			al.Transaction().Request().HTTPVersion())
 	}
 	if al.Transaction().HasResponse() {
-		cl.log.Printf(` %d`, al.Transaction().Response().Status())
+		printf(` %d`, al.Transaction().Response().Status())
 	}
-	cl.log.Printf("%s - %s\n", al.Transaction().ID(), filepath)
+	printf("%s - %s\n", al.Transaction().ID(), filepath)
 
-	return nil
+	return errors.Join(errs...)
 }
 
 var _ plugintypes.AuditLogWriter = (*concurrentWriter)(nil)
